@@ -2,6 +2,7 @@
 package main
 
 import (
+	"errors"
 	"fmt"
 	"time"
 
@@ -31,7 +32,15 @@ func (s *obsStore) Batched() (kvstore.BatchedMutations, error) {
 	return &obsBatch{b}, nil
 }
 
+// failCommits makes every batch Commit of the observed store fail (a store fault); set by one scenario only.
+var failCommits bool
+
 func (b *obsBatch) Commit() error {
+	if failCommits {
+		b.BatchedMutations.Cancel()
+		vrt.Observe("commit", false)
+		return errors.New("injected commit failure")
+	}
 	err := b.BatchedMutations.Commit()
 	vrt.Observe("commit", err == nil)
 	return err
@@ -243,6 +252,31 @@ func scenarios() []*sched.Scenario {
 			e.check()
 		}})
 	}
+	// the store refuses the batch: the writer gives up (it panics by design), but no object may be told that it was
+	// persisted - BatchWriteDone only ever follows a successful commit
+	out = append(out, &sched.Scenario{Name: "commit-fails-no-done", EnvBudget: 1, QuickMaxBound: 2,
+		Check: func(e *vrt.Exec) *sched.Violation {
+			committed := false
+			for _, ev := range e.Log {
+				switch ev.Kind {
+				case "commit":
+					committed = committed || ev.Args[0].(bool)
+				case "done":
+					if !committed {
+						return &sched.Violation{Signature: "order|BatchWriteDone-after-failed-commit", Message: fmt.Sprintf("BatchWriteDone(%v) was called although the only commit attempt of the batch failed", ev.Args[0])}
+					}
+				}
+			}
+			return nil // the writer's panic on a failed commit and the Stop that then never returns are expected here
+		},
+		Run: func() {
+			failCommits = true
+			defer func() { failCommits = false }()
+			e := newEnv(1, 2)
+			e.enqueue(1)
+			e.enqueue(2)
+			vrt.Quiesce()
+		}})
 	// a zero batch time-out is legal (the timer fires at once): a batch that is not full must still be committed and
 	// Stop must still return
 	out = append(out, &sched.Scenario{Name: "A-producers-then-stop/q1b8-timeout0", EnvBudget: 2, QuickMaxBound: 2, Run: func() {
